@@ -370,21 +370,24 @@ Lemma mi_prefix_no_hang : forall a m, no_hang (mi_prefix fail c a m).
 Proof.
   intros a m. unfold mi_prefix.
   apply bind_no_hang.
-  - destruct (m_space (setup_space (a_lwork a) m)); [apply alloc_ints_sys_no_hang|].
-    destruct (alloc_ints_user _ _) as [ps m1]. exact I.
-  - intros ia m1. repeat (apply bind_no_hang; [apply expand0_no_hang|intros]). exact I.
+  - destruct (m_space (setup_space (a_lwork a) m)).
+    + apply bind_no_hang; [apply alloc_ints_sys_no_hang|intros; exact I].
+    + destruct (alloc_ints_user _ _) as [ps m1]. destruct (existsb is_null ps); exact I.
+  - intros [ia|] m1; [|exact I].
+    apply bind_no_hang; [apply expand0_no_hang|intros lusup m2; cbv zeta].
+    repeat (apply bind_no_hang; [apply expand0_no_hang|intros]). exact I.
 Qed.
 
-(* the retry loop halves nzumax at most log2(nzumax)+1 times when annz >= 2 *)
-Lemma retry_loop_no_hang : forall fuel annz ucol lsub usub nzumax nzlmax m,
-  2 <= annz -> (Z.to_nat (Z.log2 nzumax) + 2 <= fuel)%nat ->
-  no_hang (retry_loop fail c fuel annz ucol lsub usub nzumax nzlmax m).
+(* the retry loop halves nzumax at most log2(nzumax)+1 times, WHATEVER annz is: since fix 'the retry loop gives up when
+   nzumax < 1' an iteration goes on only with 1 <= nzumax / 2 (before it, annz <= 1 made the give-up test constantly false) *)
+Lemma retry_loop_no_hang : forall fuel annz ucol lsub usub nzumax nzlmax rt ru m,
+  (Z.to_nat (Z.log2 nzumax) + 1 <= fuel)%nat ->
+  no_hang (retry_loop fail c fuel annz ucol lsub usub nzumax nzlmax rt ru m).
 Proof.
-  induction fuel as [|fuel IH]; intros annz ucol lsub usub nzumax nzlmax m Hannz Hfuel; [lia|].
+  induction fuel as [|fuel IH]; intros annz ucol lsub usub nzumax nzlmax rt ru m Hfuel; [lia|].
   simpl. destruct (negb (is_null ucol || is_null lsub || is_null usub)); [exact I|].
-  destruct (nzumax / 2 <? annz / 2) eqn:E; [exact I|].
-  apply Z.ltb_ge in E.
-  assert (1 <= annz / 2) by (apply Z.div_le_lower_bound; lia).
+  destruct ((nzumax / 2 <? annz / 2) || (nzumax / 2 <? 1)) eqn:E; [exact I|].
+  apply orb_false_iff in E. destruct E as [_ E]. apply Z.ltb_ge in E.
   assert (Hge2 : 2 <= nzumax).
   { destruct (Z_lt_le_dec nzumax 2); [|assumption]. exfalso.
     assert (nzumax / 2 < 1) by (apply Z.div_lt_upper_bound; lia). lia. }
@@ -393,7 +396,7 @@ Proof.
   { replace (nzumax / 2) with (Z.shiftr nzumax 1) by (rewrite Z.shiftr_div_pow2 by lia; reflexivity).
     rewrite Z.log2_shiftr by lia. lia. }
   repeat (apply bind_no_hang; [apply expand0_no_hang|intros]).
-  apply IH; [assumption|]. rewrite Hlog. lia.
+  apply IH. rewrite Hlog. lia.
 Qed.
 
 Lemma mi_finish_no_hang : forall a pre r m, no_hang (mi_finish c a pre r m).
@@ -405,85 +408,65 @@ Proof.
   repeat (apply bind_no_hang; [apply set_expander_no_hang|intros]). exact I.
 Qed.
 
+(* MemInit terminates for EVERY annz (the hypothesis 2 <= a_annz a of earlier versions is gone) *)
 Lemma meminit_terminates_lemma : forall fuel a m,
-  2 <= a_annz a -> (Z.to_nat (Z.log2 (nzumax0 c a)) + 2 <= fuel)%nat ->
+  (Z.to_nat (Z.log2 (nzumax0 c a)) + 1 <= fuel)%nat ->
   no_hang (mem_init fail c fuel a m).
 Proof.
-  intros fuel a m Hannz Hfuel. unfold mem_init.
+  intros fuel a m Hfuel. unfold mem_init.
   destruct (negb (a_refact a)).
   - destruct (a_lwork a =? -1); [exact I|].
-    apply bind_no_hang; [apply mi_prefix_no_hang|]. intros pre m1.
+    apply bind_no_hang; [apply mi_prefix_no_hang|]. intros [code|pre] m1; [exact I|].
     apply bind_no_hang; [apply retry_loop_no_hang; assumption|]. intros; apply mi_finish_no_hang.
   - destruct (a_prev a); [|exact I]. destruct (a_lwork a =? -1); [exact I|apply mi_refact_no_hang].
+Qed.
+
+(* more fuel never changes a result *)
+Lemma retry_loop_fuel_mono : forall fuel k annz ucol lsub usub nzumax nzlmax rt ru m r m',
+  retry_loop fail c fuel annz ucol lsub usub nzumax nzlmax rt ru m = Ok r m' ->
+  retry_loop fail c (fuel + k) annz ucol lsub usub nzumax nzlmax rt ru m = Ok r m'.
+Proof.
+  induction fuel as [|fuel IH]; intros k annz ucol lsub usub nzumax nzlmax rt ru m r m' H.
+  - simpl in H. destruct (negb (is_null ucol || is_null lsub || is_null usub)) eqn:E; [|discriminate].
+    destruct k; simpl; rewrite E; exact H.
+  - simpl in *. destruct (negb (is_null ucol || is_null lsub || is_null usub)); [exact H|].
+    destruct ((nzumax / 2 <? annz / 2) || (nzumax / 2 <? 1)); [exact H|].
+    destruct (expand0 fail c (nzumax / 2) c_UCOL _) as [p2 m2|s2 m2]; simpl in *; [|discriminate].
+    destruct (expand0 fail c (nzlmax / 2) c_LSUB _) as [p3 m3|s3 m3]; simpl in *; [|discriminate].
+    destruct (expand0 fail c (nzumax / 2) c_USUB _) as [p4 m4|s4 m4]; simpl in *; [|discriminate].
+    apply IH. exact H.
+Qed.
+
+Lemma mem_init_fuel_mono : forall fuel k a m r m',
+  mem_init fail c fuel a m = Ok r m' -> mem_init fail c (fuel + k) a m = Ok r m'.
+Proof.
+  intros fuel k a m r m'. unfold mem_init.
+  destruct (negb (a_refact a)); [|auto].
+  destruct (a_lwork a =? -1); [auto|].
+  destruct (mi_prefix fail c a _) as [[code|pre] m1|s m1]; cbn [bind]; auto.
+  destruct (retry_loop fail c fuel _ _ _ _ _ _ _ _ m1) as [r1 m2|s2 m2] eqn:E; cbn [bind]; [|discriminate].
+  rewrite (retry_loop_fuel_mono _ k _ _ _ _ _ _ _ _ _ _ _ E). cbn [bind]. auto.
 Qed.
 
 End MemInit.
 
 (* ------------------------------------------------------------------ *)
-(* the retry loop never ends when annz <= 1 and the system allocator keeps failing *)
-Section Diverge.
-Variable fail : nat -> bool.
-Variable c : cfg.
-
-Lemma expand0_sys_fail : forall len ty m,
-  m_space m = SYSTEM -> m_exp m <> None -> fail (S (m_sysn m)) = true ->
-  exists m2, expand0 fail c len ty m = Ok PNull m2 /\
-             m_space m2 = SYSTEM /\ m_exp m2 <> None /\ m_sysn m2 = S (m_sysn m).
-Proof.
-  intros len ty m Hsp Hex Hf. unfold expand0. rewrite Hsp. unfold sys_malloc. rewrite Hf.
-  unfold set_expander. simpl. destruct (m_exp m) as [l|] eqn:E; [|congruence].
-  simpl. eexists; split; [reflexivity|]. simpl. repeat split; auto. discriminate.
-Qed.
-
-Lemma retry_loop_diverges : forall fuel nzumax nzlmax m,
-  m_space m = SYSTEM -> m_exp m <> None ->
-  (forall k, (m_sysn m < k)%nat -> fail k = true) -> 0 <= nzumax ->
-  exists m', retry_loop fail c fuel 1 PNull PNull PNull nzumax nzlmax m = Stop Hang m'.
-Proof.
-  induction fuel as [|fuel IH]; intros nzumax nzlmax m Hsp Hex Hf Hnz; simpl.
-  - eexists; reflexivity.
-  - rewrite Hsp. simpl sys_free.
-    replace (nzumax / 2 <? 1 / 2) with false
-      by (symmetry; apply Z.ltb_ge; change (1 / 2) with 0; apply Z.div_pos; lia).
-    destruct (expand0_sys_fail (nzumax / 2) c_UCOL m Hsp Hex (Hf (S (m_sysn m)) ltac:(lia))) as (m2 & E2 & S2 & X2 & N2).
-    rewrite E2. simpl bind.
-    destruct (expand0_sys_fail (nzlmax / 2) c_LSUB m2 S2 X2 (Hf (S (m_sysn m2)) ltac:(lia))) as (m3 & E3 & S3 & X3 & N3).
-    rewrite E3. simpl bind.
-    destruct (expand0_sys_fail (nzumax / 2) c_USUB m3 S3 X3 (Hf (S (m_sysn m3)) ltac:(lia))) as (m4 & E4 & S4 & X4 & N4).
-    rewrite E4. simpl bind.
-    apply IH; auto.
-    + intros k Hk. apply Hf. lia.
-    + apply Z.div_pos; lia.
-Qed.
-
-End Diverge.
-
-(* witness: system space (lwork = 0), a 1 x 1 matrix with one entry (annz = 1), default sp_ienv values,
-   the system allocator fails from the 11th request on (i.e. the first L/U array cannot be allocated) *)
+(* [repaired: fix 'the retry loop gives up when nzumax < 1'; was meminit_hang_lemma: the retry loop never ended when
+   annz <= 1 and the system allocator kept failing (the test  nzumax < annz/2  is  nzumax < 0)]
+   the very arguments of the old witness: system space (lwork = 0), a 1 x 1 matrix with one entry (annz = 1), default
+   sp_ienv values, the system allocator fails from the 11th request on (i.e. the first L/U array cannot be allocated).
+   nzumax goes 50, 25, 12, 6, 3, 1, 0: the sixth iteration gives up and MemInit returns
+   memory_use(nzlmax = 0, nzumax = 0, nzlumax = 1) + n = 40 + 8 + 1 = 49 > n. *)
 Definition hang_cfg : cfg := mkCfg 8 200 200 (-50) (-50) (-30).
 Definition hang_args : mi_args := mkArgs 1 1 1 1 false false 1 0 0 0 0 None.
 Definition hang_fail (k : nat) : bool := Nat.leb 11 k.
 
-Lemma meminit_hang_lemma : forall fuel, exists m',
-  mem_init hang_fail hang_cfg fuel hang_args init_mem = Stop Hang m'.
+Lemma meminit_old_hang_witness_lemma : forall fuel, (6 <= fuel)%nat ->
+  exists m', mem_init hang_fail hang_cfg fuel hang_args init_mem = Ok (MIfail 49) m' /\
+             m_sysn m' = 29%nat /\ m_noexp m' = 0.
 Proof.
-  intros fuel. unfold mem_init.
-  change (negb (a_refact hang_args)) with true. cbv iota.
-  change (a_lwork hang_args =? -1) with false. cbv iota.
-  (* the prefix is a closed term *)
-  destruct (mi_prefix hang_fail hang_cfg hang_args
-              (ensure_expanders hang_fail (set_ba (set_dims init_mem (a_n hang_args) 0) (a_ba hang_args))))
-    as [pre m|s m] eqn:E; vm_compute in E; [|discriminate].
-  inversion E; subst pre m; clear E. simpl bind.
-  match goal with |- exists m', bind (retry_loop _ _ _ _ ?u ?l ?s ?nu ?nl ?m) _ = _ =>
-    destruct (retry_loop_diverges hang_fail hang_cfg fuel nu nl m) as [m' Hm'] end.
-  - reflexivity.
-  - discriminate.
-  - intros k Hk. unfold hang_fail. apply Nat.leb_le. simpl in Hk. lia.
-  - vm_compute; discriminate.
-  - exists m'. simpl p_ucol. simpl p_lsub. simpl p_usub. simpl a_annz.
-    change (nzumax0 hang_cfg hang_args) with 50 in *. change (nzlmax0 hang_cfg hang_args) with 30 in *.
-    rewrite Hm'. reflexivity.
+  intros fuel Hf. replace fuel with (6 + (fuel - 6))%nat by lia.
+  eexists. split; [apply mem_init_fuel_mono; vm_compute; reflexivity|]. split; reflexivity.
 Qed.
 
 (* ------------------------------------------------------------------ *)
@@ -554,24 +537,24 @@ Qed.
 Lemma guess_nonneg : forall fill annz, 0 <= annz -> 0 <= guess fill annz.
 Proof. intros. unfold guess. destruct (fill <? 0) eqn:E; nia. Qed.
 
-Lemma retry_loop_nonneg : forall fuel annz ucol lsub usub nzumax nzlmax m r m',
+Lemma retry_loop_nonneg : forall fuel annz ucol lsub usub nzumax nzlmax rt ru m r m',
   0 <= nzumax -> 0 <= nzlmax ->
-  retry_loop fail c fuel annz ucol lsub usub nzumax nzlmax m = Ok r m' ->
+  retry_loop fail c fuel annz ucol lsub usub nzumax nzlmax rt ru m = Ok r m' ->
   match r with
-  | RLok _ _ _ u l => 0 <= u /\ 0 <= l
+  | RLok _ _ _ u l => 0 <= u <= nzumax /\ 0 <= l <= nzlmax
   | RLgiveup u l => 0 <= u /\ 0 <= l
   end.
 Proof.
-  induction fuel as [|fuel IH]; intros annz ucol lsub usub nzumax nzlmax m r m' Hu Hl; simpl.
-  - destruct (negb _); [|discriminate]. intros H; inversion H; subst; auto.
-  - destruct (negb _); [intros H; inversion H; subst; auto|].
-    assert (0 <= nzumax / 2) by (apply Z.div_pos; lia).
-    assert (0 <= nzlmax / 2) by (apply Z.div_pos; lia).
-    destruct (nzumax / 2 <? annz / 2); [intros H'; inversion H'; subst; auto|].
+  induction fuel as [|fuel IH]; intros annz ucol lsub usub nzumax nzlmax rt ru m r m' Hu Hl; simpl.
+  - destruct (negb _); [|discriminate]. intros H; inversion H; subst; lia.
+  - destruct (negb _); [intros H; inversion H; subst; lia|].
+    assert (0 <= nzumax / 2 <= nzumax) by (split; [apply Z.div_pos; lia|apply Z.div_le_upper_bound; lia]).
+    assert (0 <= nzlmax / 2 <= nzlmax) by (split; [apply Z.div_pos; lia|apply Z.div_le_upper_bound; lia]).
+    destruct ((nzumax / 2 <? annz / 2) || (nzumax / 2 <? 1)); [intros H'; inversion H'; subst; lia|].
     destruct (expand0 fail c (nzumax / 2) c_UCOL _) as [p2 m2|s2 m2]; simpl; [|discriminate].
-    destruct (expand0 fail c (nzlmax / 2) c_LSUB _) as [p3 m3|s3 m3]; simpl; [|discriminate].
-    destruct (expand0 fail c (nzumax / 2) c_USUB _) as [p4 m4|s4 m4]; simpl; [|discriminate].
-    apply IH; assumption.
+    destruct (expand0 fail c (nzlmax / 2) c_LSUB m2) as [p3 m3|s3 m3]; simpl; [|discriminate].
+    destruct (expand0 fail c (nzumax / 2) c_USUB m3) as [p4 m4|s4 m4]; simpl; [|discriminate].
+    intros H'. apply IH in H'; try lia. destruct r; lia.
 Qed.
 
 Lemma mi_refact_not_fail : forall a g m code m', mi_refact a g m <> Ok (MIfail code) m'.
@@ -581,6 +564,20 @@ Proof.
   destruct (m_exp m1); simpl; intros H; discriminate.
 Qed.
 
+(* the early return "work[] cannot even hold the pointer arrays": the value is memory_use of the three initial guesses + n *)
+Lemma mi_prefix_fail_code : forall a m code m1,
+  mi_prefix fail c a m = Ok (PreFail code) m1 ->
+  code = f32 (memory_use c (a_n a) (nzlmax0 c a) (nzumax0 c a) (nzlumax0 c a) + f32 (a_n a)).
+Proof.
+  intros a m code m1. unfold mi_prefix.
+  match goal with |- bind ?X _ = _ -> _ => destruct X as [[ia|] m2|s m2] end; cbn [bind];
+    [|intros H; inversion H; reflexivity|discriminate].
+  destruct (expand0 fail c _ c_LUSUP m2) as [p3 m3|s3 m3]; cbn [bind]; [|discriminate]. cbv zeta.
+  destruct (expand0 fail c _ c_UCOL m3) as [p4 m4|s4 m4]; cbn [bind]; [|discriminate].
+  destruct (expand0 fail c _ c_LSUB m4) as [p5 m5|s5 m5]; cbn [bind]; [|discriminate].
+  destruct (expand0 fail c _ c_USUB m5) as [p6 m6|s6 m6]; cbn [bind]; discriminate.
+Qed.
+
 Lemma meminit_code_lemma : forall fuel a m code m',
   1 <= a_n a -> 0 <= a_annz a -> 0 <= a_nzlumax a ->
   mem_init fail c fuel a m = Ok (MIfail code) m' -> a_n a < code.
@@ -588,11 +585,14 @@ Proof.
   intros fuel a m code m' Hn Hannz Hnzlu. unfold mem_init.
   assert (Hlu0 : 0 <= nzlumax0 c a).
   { unfold nzlumax0. destruct (a_dyn a); [apply guess_nonneg|]; assumption. }
+  assert (Hu0 : 0 <= nzumax0 c a) by (apply guess_nonneg; assumption).
+  assert (Hl0 : 0 <= nzlmax0 c a) by (apply guess_nonneg; assumption).
   destruct (negb (a_refact a)).
   - destruct (a_lwork a =? -1); [discriminate|].
-    destruct (mi_prefix fail c a _) as [pre m1|s m1]; simpl; [|discriminate].
-    destruct (retry_loop fail c fuel _ _ _ _ _ _ m1) as [r m2|s m2] eqn:E; simpl; [|discriminate].
-    apply retry_loop_nonneg in E; try (apply guess_nonneg; assumption).
+    destruct (mi_prefix fail c a _) as [[code0|pre] m1|s m1] eqn:Ep; cbn [bind]; [| |discriminate].
+    { apply mi_prefix_fail_code in Ep. intros H; inversion H; subst. apply memory_use_code_gt_n; lia. }
+    destruct (retry_loop fail c fuel _ _ _ _ _ _ _ _ m1) as [r m2|s m2] eqn:E; cbn [bind]; [|discriminate].
+    apply retry_loop_nonneg in E; try assumption.
     unfold mi_finish. destruct r as [u l s nu nl|nu nl].
     + destruct (is_null (p_lusup pre)); [|discriminate].
       intros H; inversion H; subst. apply memory_use_code_gt_n; lia.
@@ -608,11 +608,14 @@ Proof.
   intros fuel a m code m' Hn Hannz Hnzlu. unfold mem_init.
   assert (Hlu0 : 0 <= nzlumax0 c a).
   { unfold nzlumax0. destruct (a_dyn a); [apply guess_nonneg|]; assumption. }
+  assert (Hu0 : 0 <= nzumax0 c a) by (apply guess_nonneg; assumption).
+  assert (Hl0 : 0 <= nzlmax0 c a) by (apply guess_nonneg; assumption).
   destruct (negb (a_refact a)).
   - destruct (a_lwork a =? -1); [discriminate|].
-    destruct (mi_prefix fail c a _) as [pre m1|s m1]; simpl; [|discriminate].
-    destruct (retry_loop fail c fuel _ _ _ _ _ _ m1) as [r m2|s m2] eqn:E; simpl; [|discriminate].
-    apply retry_loop_nonneg in E; try (apply guess_nonneg; assumption).
+    destruct (mi_prefix fail c a _) as [[code0|pre] m1|s m1] eqn:Ep; cbn [bind]; [| |discriminate].
+    { apply mi_prefix_fail_code in Ep. intros H; inversion H; subst. apply memory_use_code_gt_n1; lia. }
+    destruct (retry_loop fail c fuel _ _ _ _ _ _ _ _ m1) as [r m2|s m2] eqn:E; cbn [bind]; [|discriminate].
+    apply retry_loop_nonneg in E; try assumption.
     unfold mi_finish. destruct r as [u l s nu nl|nu nl].
     + destruct (is_null (p_lusup pre)); [|discriminate].
       intros H; inversion H; subst. apply memory_use_code_gt_n1; lia.
@@ -838,9 +841,12 @@ Proof.
   - destruct H as [H|H]; [congruence|]. unfold sys_malloc. rewrite H. simpl. repeat split; auto. discriminate.
 Qed.
 
-Lemma retry_loop_immediate : forall fuel annz o1 o2 o3 nu nl m,
-  retry_loop fail c fuel annz (POff o1) (POff o2) (POff o3) nu nl m = Ok (RLok (POff o1) (POff o2) (POff o3) nu nl) m.
+Lemma retry_loop_immediate : forall fuel annz o1 o2 o3 nu nl rt ru m,
+  retry_loop fail c fuel annz (POff o1) (POff o2) (POff o3) nu nl rt ru m = Ok (RLok (POff o1) (POff o2) (POff o3) nu nl) m.
 Proof. intros. destruct fuel; reflexivity. Qed.
+
+Lemma existsb_is_null_map_POff : forall l, existsb is_null (map POff l) = false.
+Proof. induction l as [|x t IH]; simpl; [reflexivity|exact IH]. Qed.
 
 Lemma meminit_sufficient_lemma : forall fuel a m,
   a_refact a = false -> 0 <= a_n a -> 0 <= a_annz a -> 0 <= a_nzlumax a -> 0 < a_lwork a ->
@@ -882,14 +888,14 @@ Proof.
   destruct (alloc_ints_user_ok (int_array_sizes n) m2 lw ba 0 Hf2) as (m3 & E3 & Hf3).
   { unfold int_array_sizes. repeat constructor; lia. }
   { unfold int_array_sizes, sumz, iword. lia. }
-  rewrite E3. cbn [bind].
+  rewrite E3. rewrite existsb_is_null_map_POff. cbn [bind].
   unfold int_array_sizes, sumz, iword in Hf3.
   replace (0 + (n + 1 + (n + (n + 1 + (n + 1 + (n + (n + 1 + (n + (n + 1 + (n + 0))))))))) * 4) with (36 * n + 20) in Hf3 by lia.
   (* lusup *)
   destruct (expand0_user_ok fail c NLU c_LUSUP m3 lw ba (36 * n + 20) Hf3) as (m4 & E4 & Hf4).
   { rewrite lword_LUSUP. exact HA. }
   { rewrite lword_LUSUP. fold dw. lia. }
-  fold NLU. rewrite E4. cbn [bind].
+  fold NLU. rewrite E4. cbn [bind]. cbv zeta.
   rewrite lword_LUSUP, extra_LUSUP in Hf4. fold dw in Hf4. rewrite extra_LUSUP.
   pose proof (align_up_extra_bounds ba (36 * n + 20)) as He1.
   pose proof (align_up_extra_aligned ba (36 * n + 20)) as Ha1.
@@ -915,7 +921,7 @@ Proof.
   { rewrite lword_USUB. lia. }
   rewrite E7. cbn [bind].
   rewrite lword_USUB, extra_USUB in Hf7. rewrite extra_USUB.
-  cbn [p_ucol p_lsub p_usub].
+  cbn [p_ucol p_lsub p_usub p_top1 p_used].
   rewrite retry_loop_immediate. cbn [bind].
   unfold mi_finish. cbn [p_lusup is_null p_ia].
   destruct Hf7 as (Hsp7 & Hex7 & Hba7 & Hst7).
@@ -1002,13 +1008,14 @@ Proof.
   replace (m_space m1) with SYSTEM by reflexivity.
   destruct (alloc_ints_sys_ok (int_array_sizes (a_n a)) m1 Hm1) as (ps & m2 & E2 & Hm2 & _ & _).
   rewrite E2. cbn [bind].
-  destruct (expand0_sys_ok (nzlumax0 c a) c_LUSUP m2 Hm2) as (m3 & E3 & Hm3). rewrite E3. cbn [bind].
+  destruct (expand0_sys_ok (nzlumax0 c a) c_LUSUP m2 Hm2) as (m3 & E3 & Hm3). rewrite E3. cbn [bind]. cbv zeta.
   destruct (expand0_sys_ok (nzumax0 c a) c_UCOL m3 Hm3) as (m4 & E4 & Hm4). rewrite E4. cbn [bind].
   destruct (expand0_sys_ok (nzlmax0 c a) c_LSUB m4 Hm4) as (m5 & E5 & Hm5). rewrite E5. cbn [bind].
   destruct (expand0_sys_ok (nzumax0 c a) c_USUB m5 Hm5) as (m6 & E6 & Hm6). rewrite E6. cbn [bind].
   cbn [p_ucol p_lsub p_usub].
-  assert (Hrl : forall k1 k2 k3 nu nl mm,
-            retry_loop fail c fuel (a_annz a) (PSys k1) (PSys k2) (PSys k3) nu nl mm
+  cbn [p_top1 p_used].
+  assert (Hrl : forall k1 k2 k3 nu nl rt ru mm,
+            retry_loop fail c fuel (a_annz a) (PSys k1) (PSys k2) (PSys k3) nu nl rt ru mm
             = Ok (RLok (PSys k1) (PSys k2) (PSys k3) nu nl) mm) by (intros; destruct fuel; reflexivity).
   rewrite Hrl. cbn [bind]. unfold mi_finish. cbn [p_lusup is_null].
   eexists; eexists; split; [reflexivity|]. cbn [g_nzlmax g_nzumax g_nzlumax g_lusup g_ucol g_lsub g_usub].
@@ -1105,22 +1112,326 @@ Proof.
 Qed.
 
 (* ================================================================== *)
-(* 6. where the faithful model of the unchanged code violates the property text (vm_compute witnesses) *)
+(* 5b. p?gstrf_MemInit on a user buffer of ANY size (since fixes 'MemInit tests the nine integer arrays' and 'the retry loop gives back exactly
+   what the last attempt took'): whenever MemInit returns 0 the 13 arrays are inside the buffer and pairwise disjoint;
+   a buffer that cannot hold the nine integer arrays makes it return a failure code at once *)
+Section AnyBuffer.
+Variable fail : nat -> bool.
+Variable c : cfg.
+Hypothesis Hdw : 0 <= dword c.
+
+(* MemInit filling the head of a fresh user buffer; nothing is assumed about ?expanders or the room left *)
+Definition ufill (m : mem) (L ba u : Z) : Prop :=
+  m_space m = USER /\ m_ba m = ba /\ m_stack m = mkStack L u u L.
+
+Lemma extra_of_bounds : forall ty ba off, 0 <= extra_of ty ba off <= 7.
+Proof. intros. unfold extra_of. destruct ((ty =? c_LUSUP) || (ty =? c_UCOL)); [apply align_up_extra_bounds|lia]. Qed.
+
+Lemma umalloc_head_cases : forall bytes m L ba u,
+  ufill m L ba u ->
+  (L <= bytes + u /\ umalloc bytes HEAD m = (PNull, m)) \/
+  (bytes + u < L /\ exists m1, umalloc bytes HEAD m = (POff u, m1) /\ ufill m1 L ba (u + bytes) /\ m_exp m1 = m_exp m).
+Proof.
+  intros bytes m L ba u (Hsp & Hba & Hst). unfold umalloc, user_malloc, stack_full. rewrite Hst. simpl.
+  destruct (L <=? bytes + u) eqn:E.
+  - left. split; [apply Z.leb_le; exact E|reflexivity].
+  - right. split; [apply Z.leb_gt; exact E|]. eexists. split; [reflexivity|].
+    unfold ufill; simpl. repeat split; auto.
+Qed.
+
+Lemma alloc_ints_user_cases : forall szs m L ba u ps m',
+  ufill m L ba u -> Forall (fun s => 0 <= s) szs ->
+  alloc_ints_user szs m = (ps, m') -> existsb is_null ps = false ->
+  ps = map POff (offsets u szs) /\ ufill m' L ba (u + sumz szs * iword) /\ (szs <> [] -> u + sumz szs * iword < L).
+Proof.
+  induction szs as [|s t IH]; intros m L ba u ps m' Hf Hpos H Hnn; simpl in H.
+  - inversion H; subst. simpl. rewrite Z.add_0_r. split; [reflexivity|]. split; [assumption|]. intros X; contradiction X; reflexivity.
+  - inversion Hpos as [|? ? Hs Ht]; subst.
+    assert (Hsum : 0 <= sumz t) by (clear - Ht; induction Ht; simpl; lia).
+    destruct (umalloc_head_cases (s * iword) m L ba u Hf) as [[_ E]|(Hlt & m1 & E & Hf1 & _)]; rewrite E in H.
+    + destruct (alloc_ints_user t m) as [ps' m2]. inversion H; subst. simpl in Hnn. discriminate.
+    + destruct (alloc_ints_user t m1) as [ps' m2] eqn:E2. inversion H; subst. simpl in Hnn.
+      destruct (IH m1 L ba (u + s * iword) ps' m' Hf1 Ht E2 Hnn) as (-> & Hf2 & Hlt2).
+      simpl. split; [reflexivity|].
+      replace (u + (s + sumz t) * iword) with (u + s * iword + sumz t * iword) by (unfold iword; lia).
+      split; [assumption|]. intros _. destruct t as [|s' t']; [simpl; unfold iword in *; lia|].
+      apply Hlt2. discriminate.
+Qed.
+
+(* p?gstrf_expand in user space, first allocation: refused (nothing changes on the stack) or granted at top1,
+   moved up by the alignment fix-up for LUSUP / UCOL -- the request was tested against the room left, the fix-up is not *)
+Lemma expand0_user_cases : forall len ty m L ba u p m',
+  ufill m L ba u -> expand0 fail c len ty m = Ok p m' ->
+  (p = PNull /\ ufill m' L ba u) \/
+  (p = POff (u + extra_of ty ba u) /\ ufill m' L ba (u + extra_of ty ba u + len * lword_of c ty) /\
+   u + len * lword_of c ty < L).
+Proof.
+  intros len ty m L ba u p m' Hf H. pose proof Hf as (Hsp & Hba & Hst).
+  unfold expand0 in H. rewrite Hsp in H. fold (lword_of c ty) in H.
+  destruct (umalloc_head_cases (len * lword_of c ty) m L ba u Hf) as [[_ E]|(Hlt & m1 & E & Hf1 & Hex)]; rewrite E in H.
+  - left. unfold set_expander in H. destruct (m_exp m); simpl in H; [|discriminate].
+    inversion H; subst. split; [reflexivity|]. unfold ufill; simpl. auto.
+  - right. destruct Hf1 as (Hsp1 & Hba1 & Hst1). rewrite Hba1, Hst1 in H. cbn [s_size s_used s_top1 s_top2] in H.
+    unfold extra_of.
+    destruct (negb (misalign ba u =? 0) && ((ty =? c_LUSUP) || (ty =? c_UCOL))) eqn:Ec.
+    + apply andb_true_iff in Ec. destruct Ec as [_ Ec]. rewrite Ec.
+      unfold set_expander in H. cbn [m_exp add_log set_stack] in H. destruct (m_exp m1); simpl in H; [|discriminate].
+      inversion H; subst. split; [reflexivity|]. split; [|lia].
+      unfold ufill; simpl. repeat split; auto. f_equal; lia.
+    + assert (Hz : (if (ty =? c_LUSUP) || (ty =? c_UCOL) then align_up_extra ba u else 0) = 0).
+      { destruct ((ty =? c_LUSUP) || (ty =? c_UCOL)); [|reflexivity].
+        rewrite andb_true_r in Ec. apply negb_false_iff in Ec. apply Z.eqb_eq in Ec.
+        unfold align_up_extra. rewrite Ec. reflexivity. }
+      rewrite Hz. unfold set_expander in H. destruct (m_exp m1); simpl in H; [|discriminate].
+      inversion H; subst. rewrite !Z.add_0_r. split; [reflexivity|]. split; [|lia].
+      unfold ufill; simpl. repeat split; auto.
+Qed.
+
+(* ucol, lsub, usub as one attempt leaves them: when none is NULL they follow one another from r0 upwards and the last
+   one ends strictly below the end of the buffer (it is the one request of the three that is never moved) *)
+Definition chain3 (r0 L ba : Z) (ucol lsub usub : ptr) (nzu nzl : Z) : Prop :=
+  exists o1 o2 o3, ucol = POff o1 /\ lsub = POff o2 /\ usub = POff o3 /\
+    r0 <= o1 /\ misalign ba o1 = 0 /\ o1 + nzu * dword c <= o2 /\ o2 + nzl * iword <= o3 /\ o3 + nzu * iword < L.
+
+Lemma expand3_user_cases : forall nzu nzl m L ba r0 ucol m2 lsub m3 usub m4,
+  0 <= nzu -> 0 <= nzl -> ufill m L ba r0 ->
+  expand0 fail c nzu c_UCOL m = Ok ucol m2 -> expand0 fail c nzl c_LSUB m2 = Ok lsub m3 ->
+  expand0 fail c nzu c_USUB m3 = Ok usub m4 ->
+  exists u4, ufill m4 L ba u4 /\
+    (is_null ucol || is_null lsub || is_null usub = false ->
+     chain3 r0 L ba ucol lsub usub nzu nzl /\ u4 < L).
+Proof.
+  intros nzu nzl m L ba r0 ucol m2 lsub m3 usub m4 Hu Hl Hf E1 E2 E3.
+  assert (HB : 0 <= nzu * dword c) by (apply Z.mul_nonneg_nonneg; assumption).
+  destruct (expand0_user_cases _ _ _ _ _ _ _ _ Hf E1) as [[-> Hf2]|(-> & Hf2 & Hlt2)].
+  - (* ucol refused *)
+    destruct (expand0_user_cases _ _ _ _ _ _ _ _ Hf2 E2) as [[-> Hf3]|(-> & Hf3 & Hlt3)];
+      (destruct (expand0_user_cases _ _ _ _ _ _ _ _ Hf3 E3) as [[-> Hf4]|(-> & Hf4 & Hlt4)];
+       eexists; (split; [exact Hf4|]); simpl; intros X; discriminate X).
+  - rewrite lword_UCOL, extra_UCOL in *.
+    pose proof (align_up_extra_bounds ba r0) as He. pose proof (align_up_extra_aligned ba r0) as Ha.
+    set (e := align_up_extra ba r0) in *.
+    destruct (expand0_user_cases _ _ _ _ _ _ _ _ Hf2 E2) as [[-> Hf3]|(-> & Hf3 & Hlt3)].
+    + destruct (expand0_user_cases _ _ _ _ _ _ _ _ Hf3 E3) as [[-> Hf4]|(-> & Hf4 & Hlt4)];
+        eexists; (split; [exact Hf4|]); simpl; intros X; discriminate X.
+    + rewrite lword_LSUB, extra_LSUB in *.
+      destruct (expand0_user_cases _ _ _ _ _ _ _ _ Hf3 E3) as [[-> Hf4]|(-> & Hf4 & Hlt4)].
+      * eexists; (split; [exact Hf4|]); simpl; intros X; discriminate X.
+      * rewrite lword_USUB, extra_USUB in *. eexists. split; [exact Hf4|]. intros _.
+        split; [|unfold iword in *; lia].
+        unfold chain3. eexists; eexists; eexists.
+        split; [reflexivity|]. split; [reflexivity|]. split; [reflexivity|].
+        unfold iword in *. repeat split; try lia; try exact Ha.
+Qed.
+
+Lemma urestore_ufill : forall m L ba u r0, ufill m L ba u -> ufill (urestore r0 r0 m) L ba r0.
+Proof. intros m L ba u r0 (Hsp & Hba & Hst). unfold ufill, urestore. rewrite Hst. simpl. auto. Qed.
+
+Lemma retry_loop_user_cases : forall fuel annz ucol lsub usub nzu nzl r0 m L ba u r m',
+  0 <= nzu -> 0 <= nzl -> ufill m L ba u ->
+  (is_null ucol || is_null lsub || is_null usub = false -> chain3 r0 L ba ucol lsub usub nzu nzl /\ u < L) ->
+  retry_loop fail c fuel annz ucol lsub usub nzu nzl r0 r0 m = Ok r m' ->
+  match r with
+  | RLok uc ls us nu nl =>
+      0 <= nu <= nzu /\ 0 <= nl <= nzl /\ chain3 r0 L ba uc ls us nu nl /\ exists u', ufill m' L ba u' /\ u' < L
+  | RLgiveup _ _ => True
+  end.
+Proof.
+  induction fuel as [|fuel IH]; intros annz ucol lsub usub nzu nzl r0 m L ba u r m' Hu Hl Hf Hch H; simpl in H.
+  - destruct (is_null ucol || is_null lsub || is_null usub) eqn:En; simpl in H; [discriminate|].
+    inversion H; subst. destruct (Hch eq_refl) as [Hc Hlt]. repeat split; try lia; [exact Hc|]. exists u. auto.
+  - destruct (is_null ucol || is_null lsub || is_null usub) eqn:En; simpl in H.
+    2:{ inversion H; subst. destruct (Hch eq_refl) as [Hc Hlt]. repeat split; try lia; [exact Hc|]. exists u. auto. }
+    pose proof Hf as (Hsp & _ & _). rewrite Hsp in H.
+    assert (Hu2 : 0 <= nzu / 2 <= nzu) by (split; [apply Z.div_pos; lia|apply Z.div_le_upper_bound; lia]).
+    assert (Hl2 : 0 <= nzl / 2 <= nzl) by (split; [apply Z.div_pos; lia|apply Z.div_le_upper_bound; lia]).
+    destruct ((nzu / 2 <? annz / 2) || (nzu / 2 <? 1)); [inversion H; subst; exact I|].
+    pose proof (urestore_ufill m L ba u r0 Hf) as Hf1.
+    destruct (expand0 fail c (nzu / 2) c_UCOL _) as [p2 m2|s2 m2] eqn:E2; cbn [bind] in H; [|discriminate].
+    destruct (expand0 fail c (nzl / 2) c_LSUB m2) as [p3 m3|s3 m3] eqn:E3; cbn [bind] in H; [|discriminate].
+    destruct (expand0 fail c (nzu / 2) c_USUB m3) as [p4 m4|s4 m4] eqn:E4; cbn [bind] in H; [|discriminate].
+    destruct (expand3_user_cases _ _ _ _ _ _ _ _ _ _ _ _ (proj1 Hu2) (proj1 Hl2) Hf1 E2 E3 E4) as (u4 & Hf4 & Hch4).
+    specialize (IH _ _ _ _ _ _ _ _ _ _ _ _ _ (proj1 Hu2) (proj1 Hl2) Hf4 Hch4 H).
+    destruct r as [uc ls us nu nl|]; [|exact I].
+    destruct IH as (A & B & C & D). repeat split; try lia; assumption.
+Qed.
+
+Lemma ensure_expanders_frame2 : forall m,
+  m_ba (ensure_expanders fail m) = m_ba m.
+Proof.
+  intros m. unfold ensure_expanders. destruct (m_exp m); [reflexivity|].
+  unfold sys_malloc. destruct (fail (S (m_sysn m))); reflexivity.
+Qed.
+
+(* bytes the 13 arrays of a Glu take (alignment bytes not counted) *)
+Definition glu_need (n : Z) (g : glu) : Z :=
+  (36 * n + 20) + g_nzlumax g * dword c + g_nzumax g * dword c + g_nzlmax g * iword + g_nzumax g * iword.
+
+Lemma meminit_user_in_buffer_lemma : forall fuel a m g m',
+  a_refact a = false -> 0 < a_lwork a -> 0 <= a_n a -> 0 <= a_annz a -> 0 <= a_nzlumax a ->
+  mem_init fail c fuel a m = Ok (MIok g) m' ->
+  exists bl,
+    glu_blocks c (a_n a) g = Some bl /\
+    Forall (block_in 0 (a_lwork a)) bl /\ ForallOrdPairs disjoint bl /\ blocks_okb (a_lwork a) bl = true /\
+    g_nzlumax g = nzlumax0 c a /\ 0 <= g_nzumax g <= nzumax0 c a /\ 0 <= g_nzlmax g <= nzlmax0 c a /\
+    (exists o, g_lusup g = POff o /\ misalign (a_ba a) o = 0) /\
+    (exists o, g_ucol g = POff o /\ misalign (a_ba a) o = 0) /\
+    glu_need (a_n a) g < a_lwork a /\
+    s_size (m_stack m') = a_lwork a /\ s_top2 (m_stack m') = a_lwork a /\
+    s_used (m_stack m') = s_top1 (m_stack m') /\ s_used (m_stack m') < a_lwork a.
+Proof.
+  intros fuel a m g m' Hre Hlw Hn Hannz Hnzlu H.
+  unfold mem_init in H. rewrite Hre in H. simpl negb in H. cbv iota in H.
+  replace (a_lwork a =? -1) with false in H by (symmetry; apply Z.eqb_neq; lia).
+  set (m0 := set_ba (set_dims m (a_n a) 0) (a_ba a)) in H.
+  pose proof (ensure_expanders_frame2 m0) as Hba1.
+  set (m1 := ensure_expanders fail m0) in *.
+  assert (Hu : 0 <= nzumax0 c a) by (apply guess_nonneg; assumption).
+  assert (Hl : 0 <= nzlmax0 c a) by (apply guess_nonneg; assumption).
+  assert (Hlu : 0 <= nzlumax0 c a) by (unfold nzlumax0; destruct (a_dyn a); [apply guess_nonneg|]; assumption).
+  set (n := a_n a) in *. set (lw := a_lwork a) in *. set (ba := a_ba a) in *.
+  set (NU := nzumax0 c a) in *. set (NL := nzlmax0 c a) in *. set (NLU := nzlumax0 c a) in *.
+  set (dw := dword c) in *.
+  assert (HA : 0 <= NLU * dw) by (apply Z.mul_nonneg_nonneg; assumption).
+  unfold mi_prefix in H. fold n lw in H. unfold setup_space in H.
+  replace (lw =? 0) with false in H by (symmetry; apply Z.eqb_neq; lia).
+  replace (0 <? lw) with true in H by (symmetry; apply Z.ltb_lt; lia).
+  set (m2 := set_stack (set_space m1 USER) (setup_stack lw)) in H.
+  assert (Hf2 : ufill m2 lw ba 0).
+  { unfold ufill, m2, setup_stack; simpl. repeat split; auto. }
+  replace (m_space m2) with USER in H by reflexivity.
+  destruct (alloc_ints_user (int_array_sizes n) m2) as [ps m3] eqn:E3.
+  destruct (existsb is_null ps) eqn:Enull; cbn [bind] in H; [discriminate|].
+  destruct (alloc_ints_user_cases (int_array_sizes n) m2 lw ba 0 ps m3 Hf2) as (Hps & Hf3 & _); [|exact E3|exact Enull|].
+  { unfold int_array_sizes. repeat constructor; lia. }
+  unfold int_array_sizes, sumz, iword in Hf3.
+  replace (0 + (n + 1 + (n + (n + 1 + (n + 1 + (n + (n + 1 + (n + (n + 1 + (n + 0))))))))) * 4) with (36 * n + 20) in Hf3 by lia.
+  (* lusup *)
+  fold NLU NU NL in H.
+  destruct (expand0 fail c NLU c_LUSUP m3) as [lusup m4|s4 m4] eqn:E4; cbn [bind] in H; [|discriminate].
+  cbv zeta in H.
+  destruct (expand0 fail c NU c_UCOL m4) as [ucol m5|s5 m5] eqn:E5; cbn [bind] in H; [|discriminate].
+  destruct (expand0 fail c NL c_LSUB m5) as [lsub m6|s6 m6] eqn:E6; cbn [bind] in H; [|discriminate].
+  destruct (expand0 fail c NU c_USUB m6) as [usub m7|s7 m7] eqn:E7; cbn [bind] in H; [|discriminate].
+  cbn [p_ucol p_lsub p_usub p_top1 p_used] in H.
+  destruct (retry_loop fail c fuel (a_annz a) ucol lsub usub NU NL _ _ m7) as [r m8|s8 m8] eqn:E8; cbn [bind] in H; [|discriminate].
+  unfold mi_finish in H. destruct r as [uc ls us nu nl|nu nl]; [|discriminate].
+  cbn [p_lusup p_ia] in H. destruct (is_null lusup) eqn:Elu; [discriminate|].
+  inversion H; subst g m'; clear H.
+  destruct (expand0_user_cases _ _ _ _ _ _ _ _ Hf3 E4) as [[-> _]|(-> & Hf4 & Hlt4)]; [discriminate Elu|].
+  rewrite lword_LUSUP, extra_LUSUP in *. fold dw in Hf4, Hlt4.
+  pose proof (align_up_extra_bounds ba (36 * n + 20)) as He1.
+  pose proof (align_up_extra_aligned ba (36 * n + 20)) as Ha1.
+  set (e1 := align_up_extra ba (36 * n + 20)) in *.
+  set (r0 := 36 * n + 20 + e1 + NLU * dw) in *.
+  pose proof Hf4 as (_ & _ & Hst4). rewrite Hst4 in E8. cbn [s_top1 s_used] in E8.
+  destruct (expand3_user_cases _ _ _ _ _ _ _ _ _ _ _ _ Hu Hl Hf4 E5 E6 E7) as (u7 & Hf7 & Hch7).
+  pose proof (retry_loop_user_cases _ _ _ _ _ _ _ _ _ _ _ _ _ _ Hu Hl Hf7 Hch7 E8) as (Hnu & Hnl & Hch & u8 & Hf8 & Hlt8).
+  destruct Hch as (o1 & o2 & o3 & -> & -> & -> & C1 & C2 & C3 & C4 & C5).
+  destruct Hf8 as (_ & _ & Hst8).
+  fold dw in C3.
+  assert (HB : 0 <= nu * dw) by (apply Z.mul_nonneg_nonneg; lia).
+  set (B := nu * dw) in *. set (A := NLU * dw) in *.
+  assert (Hbl : exists bl, glu_blocks c n
+            (mkGlu (nthp ps 0) (nthp ps 1) (nthp ps 2) (nthp ps 3) (nthp ps 4) (nthp ps 5) (nthp ps 6) (nthp ps 7) (nthp ps 8)
+                   (POff (36 * n + 20 + e1)) (POff o1) (POff o2) (POff o3) nl nu NLU) = Some bl /\
+            Forall (block_in 0 lw) bl /\ ForallOrdPairs disjoint bl).
+  { subst ps. eexists. split.
+    { unfold glu_blocks, glu_ptrs, glu_sizes, int_array_sizes.
+      cbn [map app zip_blocks poff nthp nth offsets g_xsup g_xsup_end g_supno g_xlsub g_xlsub_end g_xlusup
+           g_xlusup_end g_xusub g_xusub_end g_lusup g_ucol g_lsub g_usub g_nzlmax g_nzumax g_nzlumax].
+      reflexivity. }
+    fold dw. fold A B. unfold iword in *.
+    split.
+    { repeat (apply Forall_cons; [unfold block_in; cbn [fst snd]; lia|]). apply Forall_nil. }
+    { repeat (apply FOP_cons; [repeat (apply Forall_cons; [unfold disjoint; cbn [fst snd]; lia|]); apply Forall_nil|]).
+      apply FOP_nil. } }
+  destruct Hbl as (bl & Hgb & Hin & Hdj).
+  exists bl. split; [exact Hgb|]. split; [exact Hin|]. split; [exact Hdj|].
+  split; [apply blocks_okb_complete; assumption|].
+  cbn [g_nzlumax g_nzumax g_nzlmax g_lusup g_ucol].
+  split; [reflexivity|]. split; [lia|]. split; [lia|].
+  split; [eexists; split; [reflexivity|exact Ha1]|].
+  split; [eexists; split; [reflexivity|exact C2]|].
+  split; [unfold glu_need; cbn [g_nzlumax g_nzumax g_nzlmax]; fold dw A B; unfold iword in *; lia|].
+  cbn [m_stack set_dims]. rewrite Hst8. cbn [s_size s_top2 s_used s_top1]. lia.
+Qed.
+
+(* the nine integer arrays do not fit (their 36 n + 20 bytes must be STRICTLY below lwork, the allocator keeps one byte):
+   MemInit returns memory_use(the three initial guesses) + n at once -- no L/U array is requested, no_expand stays 0.
+   Before fix 'MemInit tests the nine integer arrays' it went on with NULL pointer arrays (finding C14-intarrays). *)
+Lemma meminit_int_arrays_refused_lemma : forall fuel a m,
+  a_refact a = false -> 0 < a_lwork a -> 0 <= a_n a -> a_lwork a <= 36 * a_n a + 20 ->
+  exists m',
+    mem_init fail c fuel a m
+    = Ok (MIfail (f32 (memory_use c (a_n a) (nzlmax0 c a) (nzumax0 c a) (nzlumax0 c a) + f32 (a_n a)))) m' /\
+    m_noexp m' = 0 /\ m_exp m' = m_exp (ensure_expanders fail (set_ba (set_dims m (a_n a) 0) (a_ba a))).
+Proof.
+  intros fuel a m Hre Hlw Hn Hsmall.
+  unfold mem_init. rewrite Hre. simpl negb. cbv iota.
+  replace (a_lwork a =? -1) with false by (symmetry; apply Z.eqb_neq; lia).
+  set (m0 := set_ba (set_dims m (a_n a) 0) (a_ba a)).
+  pose proof (ensure_expanders_frame2 m0) as Hba1.
+  set (m1 := ensure_expanders fail m0) in *.
+  set (n := a_n a) in *. set (lw := a_lwork a) in *.
+  unfold mi_prefix. fold n lw. unfold setup_space.
+  replace (lw =? 0) with false by (symmetry; apply Z.eqb_neq; lia).
+  replace (0 <? lw) with true by (symmetry; apply Z.ltb_lt; lia).
+  set (m2 := set_stack (set_space m1 USER) (setup_stack lw)).
+  assert (Hf2 : ufill m2 lw (a_ba a) 0).
+  { unfold ufill, m2, setup_stack; simpl. repeat split; auto. }
+  replace (m_space m2) with USER by reflexivity.
+  destruct (alloc_ints_user (int_array_sizes n) m2) as [ps m3] eqn:E3.
+  assert (Hex3 : m_exp m3 = m_exp m1 /\ m_noexp m3 = 0).
+  { assert (G : forall szs mm ps' mm', alloc_ints_user szs mm = (ps', mm') -> m_exp mm' = m_exp mm /\ m_noexp mm' = m_noexp mm).
+    { induction szs as [|s t IH]; intros mm ps' mm' E; simpl in E; [inversion E; auto|].
+      unfold umalloc in E. destruct (user_malloc (m_ba mm) (s * iword) HEAD (m_stack mm)) as [[off|] st].
+      - destruct (alloc_ints_user t _) as [ps2 mm2] eqn:E2. inversion E; subst. apply IH in E2. simpl in E2. exact E2.
+      - destruct (alloc_ints_user t mm) as [ps2 mm2] eqn:E2. inversion E; subst. apply IH in E2. exact E2. }
+    apply G in E3. destruct E3 as [X Y]. split; [exact X|]. rewrite Y. unfold m2, m1, ensure_expanders.
+    destruct (m_exp m0); [reflexivity|]. unfold sys_malloc. destruct (fail (S (m_sysn m0))); reflexivity. }
+  destruct (existsb is_null ps) eqn:Enull; cbn [bind].
+  - eexists. split; [reflexivity|]. destruct Hex3 as [X Y]. split; [exact Y|exact X].
+  - exfalso.
+    destruct (alloc_ints_user_cases (int_array_sizes n) m2 lw (a_ba a) 0 ps m3 Hf2) as (_ & _ & Hlt); [|exact E3|exact Enull|].
+    { unfold int_array_sizes. repeat constructor; lia. }
+    unfold int_array_sizes, sumz, iword in Hlt.
+    assert (X : [n + 1; n; n + 1; n + 1; n; n + 1; n; n + 1; n] <> []) by discriminate.
+    specialize (Hlt X). lia.
+Qed.
+
+End AnyBuffer.
+
+(* ================================================================== *)
+(* 6. vm_compute witnesses: where the faithful model violates the property text, and the arguments of former witnesses
+      that have been repaired *)
 
 Definition default_cfg : cfg := mkCfg 8 200 200 (-50) (-50) (-30).   (* double precision, sp_ienv defaults *)
 Definition small_cfg : cfg := mkCfg 8 2 2 (-1) (-1) (-2).
 
-(* (a) a user buffer that is too small for lsub: the retry loop "frees" blocks that were never handed out,
-   MemInit returns 0 (success) and three of the arrays lie BELOW the buffer *)
-Lemma insufficient_buffer_wild_blocks_lemma :
-  exists a g m', 0 < a_lwork a /\
+(* (a) [repaired: fixes 'the retry loop gives back exactly what the last attempt took' and 'MemInit tests the nine integer
+   arrays'; was insufficient_buffer_wild_blocks_lemma: with lwork = 3000 the retry loop "freed" blocks that had never been handed
+   out, MemInit returned 0 and ucol was at offset -19616, BELOW the buffer]
+   the very arguments of the old witness: lusup (1600 bytes, moved up by 4 for alignment) ends at 1984 = retry_top1; five
+   attempts are rewound to 1984, the sixth (nzumax = 1500/32 = 46 >= annz/2, nzlmax = 900/32 = 28) fits: MemInit returns 0 with
+   the 13 arrays inside [0, 3000), pairwise disjoint, top1 = used = 2648.  With lwork = 300 the nine integer arrays (380 bytes)
+   do not fit: failure code 23610 > n at once (memory_use of the three initial guesses + n), nothing after the seventh
+   integer array is handed out.  Instances of meminit_user_in_buffer_lemma / meminit_int_arrays_refused_lemma. *)
+Lemma insufficient_buffer_lemma :
+  (exists a g m', a = mkArgs 10 30 1 4 false false 200 0 0 3000 0 None /\
     mem_init (fun _ => false) default_cfg 64 a init_mem = Ok (MIok g) m' /\
-    exists bl, glu_blocks default_cfg (a_n a) g = Some bl /\ blocks_okb (a_lwork a) bl = false /\
-    g_ucol g = POff (-19616).
+    (exists bl, glu_blocks default_cfg (a_n a) g = Some bl /\ blocks_okb (a_lwork a) bl = true) /\
+    g_lusup g = POff 384 /\ g_ucol g = POff 1984 /\ g_lsub g = POff 2352 /\ g_usub g = POff 2464 /\
+    g_nzumax g = 46 /\ g_nzlmax g = 28 /\ g_nzlumax g = 200 /\
+    m_stack m' = mkStack 3000 2648 2648 3000) /\
+  (exists a m', a = mkArgs 10 30 1 4 false false 200 0 0 300 0 None /\
+    mem_init (fun _ => false) default_cfg 64 a init_mem = Ok (MIfail 23610) m' /\
+    a_n a + 1 < 23610 /\ m_noexp m' = 0 /\ m_stack m' = mkStack 300 296 296 300).
 Proof.
-  exists (mkArgs 10 30 1 4 false false 200 0 0 3000 0 None).
-  eexists. eexists. split; [reflexivity|]. split; [vm_compute; reflexivity|].
-  eexists. split; [vm_compute; reflexivity|]. split; vm_compute; reflexivity.
+  split.
+  - eexists. eexists. eexists. split; [reflexivity|]. split; [vm_compute; reflexivity|].
+    split; [eexists; split; vm_compute; reflexivity|]. repeat split; vm_compute; reflexivity.
+  - eexists. eexists. split; [reflexivity|]. split; [vm_compute; reflexivity|]. repeat split; vm_compute; reflexivity.
 Qed.
 
 (* (b) [repaired: fix 'tail blocks are aligned by the allocator']  WorkInit used to move a misaligned dwork DOWN without
